@@ -235,3 +235,15 @@ def harvest_files(relpaths):
         p = os.path.join(REPO, rp)
         out.update(harvest(ast.parse(open(p, encoding='utf-8').read(), p)))
     return sorted(out)
+
+
+def collapse_hashes():
+    """symbolic runs only: categories/features hash to a constant, so dict/set lookups keyed by them become equality scans
+    (coherence of the real __hash__ with __eq__ is C13's obligation, checked with the real hash)"""
+    def cb(m):
+        if m.__name__ == 'depccg.cat':
+            for n in ('Atom', 'Functor', 'UnaryFeature', 'TernaryFeature'):
+                setattr(getattr(m, n), '__hash__', lambda self: 7)
+    POST_EXEC.append(cb)
+    if 'depccg.cat' in sys.modules and isinstance(getattr(sys.modules['depccg.cat'], '__loader__', None), Loader):
+        cb(sys.modules['depccg.cat'])
